@@ -125,9 +125,9 @@ func init() {
 		},
 		{
 			ID:          "C08",
-			Rules:       []RuleUse{use("R-RETSHAPE", "v5"), use("R-ERRCHAIN", "v5"), {Rule: "R-COPYLIMIT", Bodies: []string{"v5"}, KeyHas: []string{"(i)", "(iii)", "(iv)", "(vi)"}}, use("R-SUCCESS", "v5"), {Rule: "R-DISPATCH", Bodies: []string{"v5"}, KeyHas: []string{"operation order"}}},
-			Explanation: "Decided for the v5 body: R-DISPATCH operation order (the apply function reports errors from the dispatch loop only: no other loop over the operations — a pre-scan or validation pass — leaves into an error return, so the first operation that cannot be applied decides the outcome), R-RETSHAPE (every return of the Apply family and of the functions whose result tuples they pass through has a nil document or a nil error; in the operation loop every handler's error is tested before the back edge and the non-nil edge returns (nil, that error), so no later operation runs after the first failure), R-ERRCHAIN (error identity over every error return of the six handlers and the two containers: ErrTestFailed is produced only by the test handler, by each of its comparison-verdict returns and by none of its lookup-failure returns; a test against an absent member reaches the comparison; an unreachable parent yields ErrMissing in all six handlers; an absent member yields ErrMissing in partialDoc.get/remove and every handler wraps (%w) the container's error or ErrMissing; *AccumulatedCopySizeError comes only from its constructor, called only by the copy handler), R-COPYLIMIT (iii,iv) (that error is returned exactly on the over-limit edge). R-SUCCESS (a handler returns nil only after its container effect — add/set/remove, the root replacement, the comparison for test — or through the AllowMissingPathOnRemove skip: an inapplicable operation cannot be silently accepted, so the first failing operation really ends the patch).",
-			NotDecided:  "that a patch whose operations all succeed never errors (the final marshal could fail); the 'exactly when' direction for ErrMissing beyond the 'holds when' clauses the property states.",
+			Rules:       []RuleUse{use("R-RETSHAPE", "v5"), use("R-ERRCHAIN", "v5"), {Rule: "R-COPYLIMIT", Bodies: []string{"v5"}, KeyHas: []string{"(i)", "(iii)", "(iv)", "(vi)"}}, use("R-SUCCESS", "v5"), {Rule: "R-DISPATCH", Bodies: []string{"v5"}, KeyHas: []string{"operation order"}}, {Rule: "R-TYPESTATE", Bodies: []string{"v5"}, KeyHas: []string{"root slot", "object root decoded", "receiver tested for nil"}}},
+			Explanation: "Decided for the v5 body: R-TYPESTATE root obligations (every container that can become the root is either a parsed object with its member map, or the nil array that stands for null, whose every method answers with an error; no object root is decoded in place from a text that may be null — such a root has no member map and fails only when the result is written out, so that a later operation replacing the root would turn the failure into a success), R-DISPATCH operation order (the apply function reports errors from the dispatch loop only: no other loop over the operations — a pre-scan or validation pass — leaves into an error return, so the first operation that cannot be applied decides the outcome), R-RETSHAPE (every return of the Apply family and of the functions whose result tuples they pass through has a nil document or a nil error; in the operation loop every handler's error is tested before the back edge and the non-nil edge returns (nil, that error), so no later operation runs after the first failure), R-ERRCHAIN (error identity over every error return of the six handlers and the two containers: ErrTestFailed is produced only by the test handler, by each of its comparison-verdict returns and by none of its lookup-failure returns; a test against an absent member reaches the comparison; an unreachable parent yields ErrMissing in all six handlers; an absent member yields ErrMissing in partialDoc.get/remove and every handler wraps (%w) the container's error or ErrMissing; *AccumulatedCopySizeError comes only from its constructor, called only by the copy handler), R-COPYLIMIT (iii,iv) (that error is returned exactly on the over-limit edge). R-SUCCESS (a handler returns nil only after its container effect — add/set/remove, the root replacement, the comparison for test — or through the AllowMissingPathOnRemove skip: an inapplicable operation cannot be silently accepted, so the first failing operation really ends the patch).",
+			NotDecided:  "that a patch whose operations all succeed never errors, beyond the root typestate (the final marshal could still fail on a value nested deeper than the encoder accepts); the 'exactly when' direction for ErrMissing beyond the 'holds when' clauses the property states.",
 			Trusted:     commonTrusted, Assumptions: commonAssumptions,
 		},
 		{
